@@ -448,7 +448,7 @@ func sortedKeys(m map[string]bool) []string {
 
 // assumeEntry: facts about parameters at function entry.
 func (c *FuncCtx) assumeEntry(t Term, ty types.Type, name string, con *Contract) {
-	switch ty.Underlying().(type) {
+	switch under(ty).(type) {
 	case *types.Pointer:
 		c.preexisting(t)
 		if con == nil || !con.Nullable[name] {
@@ -471,7 +471,7 @@ func (c *FuncCtx) assumeG(t Term) {
 }
 
 func (c *FuncCtx) wfTerm(v Term, t types.Type) Term {
-	switch u := t.Underlying().(type) {
+	switch u := under(t).(type) {
 	case *types.Slice:
 		return c.sliceWF(v)
 	case *types.Basic:
@@ -492,7 +492,7 @@ func (c *FuncCtx) wfTerm(v Term, t types.Type) Term {
 		var parts []Term
 		for i := 0; i < u.NumFields(); i++ {
 			ft := u.Field(i).Type()
-			switch ft.Underlying().(type) {
+			switch under(ft).(type) {
 			case *types.Slice, *types.Basic, *types.Interface, *types.Struct:
 				if w := c.wfTerm(c.fieldSel(v, t, i), ft); w.S != "true" {
 					parts = append(parts, w)
